@@ -1,0 +1,9 @@
+//go:build verif
+
+// Contracts for package common (comment-only; read by /verif/bin/zv, never compiled into the product).
+package common
+
+// C13: marking an error retriable wraps it: the result is never nil and nothing else is written.
+//@ func MarkRetriable
+//@   modifies nothing
+//@   ensures wrapped: result != nil
